@@ -540,7 +540,7 @@ func TestGen(t *testing.T) {
 		add("cold-canonical", withHandles(r, ws, 2))
 	}
 	// (2) cold start with the initial add events in an arbitrary cross-type order
-	for i := 0; i < vlib.Scale(24, 400); i++ {
+	for i := 0; i < vlib.Scale(20, 400); i++ {
 		r := root.Sub()
 		ws := genFinalCluster(r)
 		for j := len(ws) - 1; j > 0; j-- {
@@ -550,7 +550,7 @@ func TestGen(t *testing.T) {
 		add("cold-permuted", withHandles(r, ws, 2))
 	}
 	// (3) random histories, three delivery modes
-	for i := 0; i < vlib.Scale(70, 2500); i++ {
+	for i := 0; i < vlib.Scale(56, 2500); i++ {
 		r := root.Sub()
 		cl := newCluster()
 		n := 4 + r.Intn(10)
